@@ -152,6 +152,37 @@ func TestOptions(t *testing.T) {
 		}()
 		out.Add("opts-"+label, rec.Ev{"label": label}, label, sim.Result{Lines: r.Lines(), Status: status, Detail: detail})
 	}
+	// every valid duration / length on a FRESH socket and a fresh dialer each: acceptance must not depend on what
+	// the object was given before (zero = no limit is accepted whatever the other options are)
+	freshNames := []string{mangos.OptionRecvDeadline, mangos.OptionSendDeadline, mangos.OptionRetryTime, mangos.OptionSurveyTime,
+		mangos.OptionReconnectTime, mangos.OptionMaxReconnectTime, mangos.OptionWriteQLen, mangos.OptionReadQLen, mangos.OptionMaxRecvSize, mangos.OptionTTL}
+	for _, p := range rawProtos {
+		p := p
+		run("fresh-"+p.name, func(r *rec.Recorder) {
+			for _, n := range freshNames {
+				for _, ov := range optVals() {
+					if !strings.HasPrefix(ov.cls, "dur") && !strings.HasPrefix(ov.cls, "int") {
+						continue
+					}
+					func() {
+						s := protocol.MakeSocket(p.mk())
+						defer s.Close()
+						defer func() {
+							if x := recover(); x != nil {
+								r.Emit("oset", "obj", "sock-"+p.name, "name", n, "cls", ov.cls, "r", "panic")
+							}
+						}()
+						r.Emit("oset", "obj", "sock-"+p.name, "name", n, "cls", ov.cls, "r", s.SetOption(n, ov.v))
+						if n == mangos.OptionReconnectTime || n == mangos.OptionMaxReconnectTime || n == mangos.OptionMaxRecvSize {
+							if d, err := s.NewDialer(fmt.Sprintf("inproc://fresh-%d", os.Getpid()), nil); err == nil {
+								r.Emit("oset", "obj", "dialer-inproc", "name", n, "cls", ov.cls, "r", d.SetOption(n, ov.v))
+							}
+						}
+					}()
+				}
+			}
+		})
+	}
 	// sockets of every pattern
 	for _, p := range rawProtos {
 		p := p
